@@ -57,6 +57,7 @@ class Obs:
         self.wsgi = None
         self.spin = None
         self.end_seq = None
+        self.handler_done_at = None
 
     @property
     def outbytes(self):
@@ -225,6 +226,7 @@ def run_asyncio(case):
             server = TCPServer(app, loop, config, context, state, reader, writer)
             base_tasks = set(asyncio.all_tasks(loop))
             task = loop.create_task(server.run())
+            task.add_done_callback(lambda t: setattr(obs, "handler_done_at", loop.time()))
             reactor = _mk_reactor(case, trace)
             obs.reactor = reactor
             consumed = [0]
@@ -478,6 +480,7 @@ def run_trio(case):
                 try:
                     await server.run()
                     done["r"] = "ok"
+                    obs.handler_done_at = trio.current_time()
                 except trio.Cancelled:
                     done.setdefault("r", "cancelled")
                     raise
